@@ -9,20 +9,20 @@ cd "$wt" || exit 2
 [ -f OUT/patch.diff ] && [ -f OUT/demo.sh ] || { echo "missing deliverables"; exit 2; }
 log=/tmp/confirm_$id.log; : > $log
 git checkout -q -- . ; git apply OUT/patch.diff || { echo "patch does not apply to a clean worktree"; exit 1; }
-echo "[1] build with change"; make -j16 testrunner cppcheck >> $log 2>&1 || { echo "BUILD FAILED"; exit 1; }
+echo "[1] build with change"; ./BUILD.sh testrunner cppcheck >> $log 2>&1 || { echo "BUILD FAILED"; exit 1; }
 echo "[1] unit tests with change"; ./testrunner -q > /tmp/confirm_${id}_tests.log 2>&1; trc=$?
 tail -3 /tmp/confirm_${id}_tests.log
 [ $trc -eq 0 ] || { echo "TESTS FAIL WITH CHANGE (rc=$trc)"; exit 1; }
 echo "[2] demo with change (must fail)"; (bash OUT/demo.sh > /tmp/confirm_${id}_demo_with.log 2>&1); d1=$?
 echo "    demo rc=$d1"
 git apply -R OUT/patch.diff
-echo "[3] rebuild without change"; make -j16 cppcheck >> $log 2>&1 || { echo "BUILD FAILED (baseline)"; exit 1; }
+echo "[3] rebuild without change"; ./BUILD.sh cppcheck >> $log 2>&1 || { echo "BUILD FAILED (baseline)"; exit 1; }
 (bash OUT/demo.sh > /tmp/confirm_${id}_demo_without.log 2>&1); d2=$?
 echo "    demo without change rc=$d2"
 git apply OUT/patch.diff
 if [ $d1 -ne 0 ] && [ $d2 -eq 0 ]; then
   dst=/verif/seeded/$id; mkdir -p $dst
-  cp OUT/patch.diff OUT/demo.sh $dst/; for f in OUT/*.c OUT/*.py OUT/notes.md; do [ -f "$f" ] && cp "$f" $dst/; done
+  cp OUT/patch.diff OUT/demo.sh $dst/; for f in OUT/*.c OUT/*.py OUT/*.sh OUT/notes.md; do [ -f "$f" ] && cp "$f" $dst/; done
   cat > $dst/meta.json <<EOM
 {"id": "$id", "property": "$prop", "confirmed": {"builds": true, "unit_tests_with_change": "testrunner -q exit 0", "demo_with_change_rc": $d1, "demo_without_change_rc": $d2},
  "needs_to_manifest": "see notes.md", "detected_by": "TO BE FILLED"}
